@@ -233,70 +233,88 @@ Proof. intros H. cbn [append]. unfold lex_one. rewrite H. reflexivity. Qed.
 Arguments lit_value : simpl never.
 Arguments digits_val : simpl never.
 
-Lemma lex_number_int s rest : s <> "" -> all_chars is_digit s = true ->
-  lex_number (s ++ String " " rest) = Some (TNum (lit_value (digits_val 0 s) 0 0) true, String " " rest).
+(* a white-space character is in no other class *)
+Lemma space_codes w : is_space w = true ->
+  is_digit w = false /\ is_id_char w = false /\ (code w =? 46)%N = false
+  /\ ((code w =? 101)%N || (code w =? 69)%N)%bool = false /\ (code w =? 42)%N = false.
+Proof. unfold is_space, is_id_char, is_id_start, is_digit. intros H. repeat split; lia. Qed.
+
+Lemma lex_number_int s w rest : is_space w = true -> s <> "" -> all_chars is_digit s = true ->
+  lex_number (s ++ String w rest) = Some (TNum (lit_value (digits_val 0 s) 0 0) true, String w rest).
 Proof.
-  intros Hne Hd. unfold lex_number. rewrite (span_all is_digit s (String " " rest) Hd eq_refl).
-  destruct s as [|c r]; [congruence|]. reflexivity.
+  intros Hw Hne Hd. destruct (space_codes w Hw) as (Wd & _ & W46 & We & _).
+  unfold lex_number. rewrite (span_all is_digit s (String w rest) Hd Wd).
+  destruct s as [|c r]; [congruence|]. cbv beta iota. rewrite W46. cbv beta iota.
+  unfold lex_exponent. rewrite We. reflexivity.
 Qed.
 
-Lemma lex_number_dec s1 s2 rest : s1 <> "" -> all_chars is_digit s1 = true -> s2 <> "" -> all_chars is_digit s2 = true ->
-  lex_number (s1 ++ String "e" (String "-" (s2 ++ String " " rest)))
-  = Some (TNum (lit_value (digits_val 0 s1) 0 (- Z.of_N (digits_val 0 s2))) false, String " " rest).
+Lemma lex_number_dec s1 s2 w rest : is_space w = true ->
+  s1 <> "" -> all_chars is_digit s1 = true -> s2 <> "" -> all_chars is_digit s2 = true ->
+  lex_number (s1 ++ String "e" (String "-" (s2 ++ String w rest)))
+  = Some (TNum (lit_value (digits_val 0 s1) 0 (- Z.of_N (digits_val 0 s2))) false, String w rest).
 Proof.
-  intros Hn1 Hd1 Hn2 Hd2. unfold lex_number. rewrite (span_all is_digit s1 (String "e" (String "-" (s2 ++ String " " rest))) Hd1 eq_refl).
+  intros Hw Hn1 Hd1 Hn2 Hd2. destruct (space_codes w Hw) as (Wd & _).
+  unfold lex_number. rewrite (span_all is_digit s1 (String "e" (String "-" (s2 ++ String w rest))) Hd1 eq_refl).
   destruct s1 as [|c r]; [congruence|]. cbv beta iota.
   change (code "e" =? 46)%N with false. cbv beta iota.
   unfold lex_exponent. change ((code "e" =? 101)%N || (code "e" =? 69)%N) with true. cbv beta iota.
   change (code "-" =? 45)%N with true. cbv beta iota.
-  rewrite (span_all is_digit s2 (String " " rest) Hd2 eq_refl).
+  rewrite (span_all is_digit s2 (String w rest) Hd2 Wd).
   destruct s2 as [|c2 r2]; [congruence|]. reflexivity.
 Qed.
 
 Lemma str_of_N_ne n : str_of_N n <> "".
 Proof. destruct (str_of_N_nonempty n) as (c & r & E & _). rewrite E. discriminate. Qed.
 
-Lemma lex_one_int n rest :
-  lex_one (str_of_N n ++ String " " rest) = Some (TNum (lit_value n 0 0) true, String " " rest).
+Lemma lex_one_int n w rest : is_space w = true ->
+  lex_one (str_of_N n ++ String w rest) = Some (TNum (lit_value n 0 0) true, String w rest).
 Proof.
-  destruct (str_of_N_nonempty n) as (c & r & E & Hc).
+  intros Hw. destruct (str_of_N_nonempty n) as (c & r & E & Hc).
   rewrite E, (lex_one_digit c r _ Hc), <- E.
-  rewrite (lex_number_int _ rest (str_of_N_ne n) (str_of_N_digits n)), digits_val_N. reflexivity.
+  rewrite (lex_number_int _ w rest Hw (str_of_N_ne n) (str_of_N_digits n)), digits_val_N. reflexivity.
 Qed.
 
-Lemma lex_one_dec m e rest :
-  lex_one ((str_of_N m ++ "e-" ++ str_of_N e) ++ String " " rest)
-  = Some (TNum (lit_value m 0 (- Z.of_N e)) false, String " " rest).
+Lemma lex_one_dec m e w rest : is_space w = true ->
+  lex_one ((str_of_N m ++ "e-" ++ str_of_N e) ++ String w rest)
+  = Some (TNum (lit_value m 0 (- Z.of_N e)) false, String w rest).
 Proof.
-  destruct (str_of_N_nonempty m) as (c & r & E & Hc).
+  intros Hw. destruct (str_of_N_nonempty m) as (c & r & E & Hc).
   rewrite !append_assoc. cbn [append].
   rewrite E, (lex_one_digit c r _ Hc), <- E.
-  rewrite (lex_number_dec _ _ rest (str_of_N_ne m) (str_of_N_digits m) (str_of_N_ne e) (str_of_N_digits e)), !digits_val_N.
+  rewrite (lex_number_dec _ _ w rest Hw (str_of_N_ne m) (str_of_N_digits m) (str_of_N_ne e) (str_of_N_digits e)), !digits_val_N.
   reflexivity.
 Qed.
 
-Lemma lex_one_id s rest : good_id s = true -> lex_one (s ++ String " " rest) = Some (TId s, String " " rest).
+Lemma lex_one_id s w rest : is_space w = true -> good_id s = true ->
+  lex_one (s ++ String w rest) = Some (TId s, String w rest).
 Proof.
+  intros Hw. destruct (space_codes w Hw) as (_ & Wi & _).
   destruct s as [|c r]; [discriminate|]. cbn [good_id]. intros H. apply andb_prop in H as [Hc Hr].
   assert (Hd : is_digit c || (code c =? 46)%N = false).
   { unfold is_id_start, is_digit in *. destruct (code c) as [|p]; [discriminate|]. lia. }
   unfold lex_one. cbn [append]. rewrite Hd, Hc.
-  change (String c (r ++ String " " rest)) with (String c r ++ String " " rest).
-  rewrite (span_all is_id_char (String c r) (String " " rest)); [reflexivity| |reflexivity].
+  change (String c (r ++ String w rest)) with (String c r ++ String w rest).
+  rewrite (span_all is_id_char (String c r) (String w rest)); [reflexivity| |exact Wi].
   cbn [all_chars]. unfold is_id_char at 1. rewrite Hc. exact Hr.
 Qed.
 
-Lemma lex_one_op t rest : is_op t = true -> lex_one (op_string t ++ String " " rest) = Some (t, String " " rest).
-Proof. destruct t; try discriminate; intros _; reflexivity. Qed.
-
-Lemma lex_one_render t rest : good t = true ->
-  lex_one (render_tok t ++ String " " rest) = Some (tok_of t, String " " rest).
+Lemma lex_one_op t w rest : is_space w = true -> is_op t = true ->
+  lex_one (op_string t ++ String w rest) = Some (t, String w rest).
 Proof.
-  destruct t as [n|m e|s|t]; cbn [good render_tok tok_of]; intros H.
-  - apply lex_one_int.
-  - apply lex_one_dec.
-  - apply lex_one_id; exact H.
-  - apply lex_one_op; exact H.
+  intros Hw. destruct (space_codes w Hw) as (_ & _ & _ & _ & W42).
+  destruct t; try discriminate; intros _; try reflexivity.
+  cbn [op_string append]. unfold lex_one. change (is_digit "*" || (code "*" =? 46)%N) with false.
+  change (is_id_start "*") with false. change (code "*" =? 42)%N with true. cbv beta iota. rewrite W42. reflexivity.
+Qed.
+
+Lemma lex_one_render t w rest : is_space w = true -> good t = true ->
+  lex_one (render_tok t ++ String w rest) = Some (tok_of t, String w rest).
+Proof.
+  intros Hw. destruct t as [n|m e|s|t]; cbn [good render_tok tok_of]; intros H.
+  - apply lex_one_int; exact Hw.
+  - apply lex_one_dec; exact Hw.
+  - apply lex_one_id; assumption.
+  - apply lex_one_op; assumption.
 Qed.
 
 Lemma render_tok_nonspace t : good t = true ->
@@ -315,29 +333,75 @@ Qed.
 Lemma length_append a b : String.length (a ++ b) = String.length a + String.length b.
 Proof. induction a as [|c a IH]; cbn [append String.length]; [reflexivity|rewrite IH; reflexivity]. Qed.
 
-Lemma lex_fuel_render l : Forall (fun t => good t = true) l ->
-  forall n, List.length l <= n -> lex_fuel n (render l) = Some (map tok_of l).
+(* ---------- layout: any white space between the tokens ---------- *)
+(* a separator: at least one character, blanks / tabs / line feeds / form feeds / carriage returns only *)
+Definition sep (w : string) : Prop := w <> "" /\ all_chars is_space w = true.
+
+Fixpoint layout (l : list (stok * string)) : string :=
+  match l with
+  | [] => EmptyString
+  | (t, w) :: l' => render_tok t ++ w ++ layout l'
+  end.
+
+Lemma skip_space_all w rest : all_chars is_space w = true -> skip_space (w ++ rest) = skip_space rest.
 Proof.
-  induction 1 as [|t l Ht _ IH]; intros n Hn.
-  - destruct n; reflexivity.
-  - cbn [render map List.length] in *. destruct n as [|n]; [lia|].
-    destruct (render_tok_nonspace t Ht) as (c & r & E & Hc).
-    cbn [lex_fuel]. rewrite E. cbn [append skip_space]. rewrite Hc.
-    change (String c (r ++ String " " (render l))) with (String c r ++ String " " (render l)). rewrite <- E.
-    rewrite (lex_one_render t (render l) Ht).
-    assert (Hs : lex_fuel n (String " " (render l)) = lex_fuel n (render l)).
-    { destruct n; cbn [lex_fuel skip_space]; change (is_space " ") with true; reflexivity. }
-    rewrite Hs, (IH n ltac:(lia)). reflexivity.
+  induction w as [|c w IH]; cbn [all_chars append skip_space]; intros H; [reflexivity|].
+  apply andb_prop in H as [Hc Hw]. rewrite Hc. apply IH. exact Hw.
 Qed.
 
-Lemma length_render l : List.length l <= String.length (render l).
+Lemma lex_fuel_skip n w rest : all_chars is_space w = true -> lex_fuel n (w ++ rest) = lex_fuel n rest.
+Proof. intros H. destruct n; cbn [lex_fuel]; rewrite (skip_space_all w rest H); reflexivity. Qed.
+
+Definition laid (tw : stok * string) : Prop := good (fst tw) = true /\ sep (snd tw).
+
+Lemma lex_fuel_layout l : Forall laid l ->
+  forall n, List.length l <= n -> lex_fuel n (layout l) = Some (map (fun tw => tok_of (fst tw)) l).
 Proof.
-  induction l as [|t l IH]; cbn [render List.length String.length]; [lia|].
-  rewrite length_append. cbn [String.length]. lia.
+  induction 1 as [|[t w] l [Ht [Hne Hw]] _ IH]; intros n Hn.
+  - destruct n; reflexivity.
+  - cbn [fst snd] in *. cbn [layout map List.length fst] in *. destruct n as [|n]; [lia|].
+    destruct w as [|c w']; [congruence|]. cbn [all_chars] in Hw. apply andb_prop in Hw as [Hc Hw'].
+    destruct (render_tok_nonspace t Ht) as (c0 & r0 & E & Hc0).
+    cbn [lex_fuel]. rewrite E. cbn [append skip_space]. rewrite Hc0.
+    change (String c0 (r0 ++ String c (w' ++ layout l))) with (String c0 r0 ++ String c (w' ++ layout l)). rewrite <- E.
+    rewrite (lex_one_render t c (w' ++ layout l) Hc Ht).
+    change (String c (w' ++ layout l)) with (String c w' ++ layout l).
+    rewrite (lex_fuel_skip n (String c w') (layout l)); [|cbn [all_chars]; rewrite Hc; exact Hw'].
+    rewrite (IH n ltac:(lia)). reflexivity.
 Qed.
+
+Lemma length_layout l : Forall laid l -> List.length l <= String.length (layout l).
+Proof.
+  induction 1 as [|[t w] l [Ht [Hne Hw]] _ IH]; cbn [layout List.length String.length]; [lia|].
+  rewrite !length_append. cbn [snd] in Hne. destruct w; [congruence|]. cbn [String.length]. lia.
+Qed.
+
+(* white space is inert: with any leading white space and any separator after each token - blanks, tabs, line breaks
+   (the continuation of an expression over several lines), in any number - the lexer produces the same tokens *)
+Theorem lex_layout lead l : all_chars is_space lead = true -> Forall laid l ->
+  lex (lead ++ layout l) = Some (map (fun tw => tok_of (fst tw)) l).
+Proof.
+  intros Hl H. unfold lex. rewrite (lex_fuel_skip _ lead (layout l) Hl).
+  apply lex_fuel_layout; [exact H|]. rewrite length_append. pose proof (length_layout l H). lia.
+Qed.
+
+Corollary layout_is_inert lead1 lead2 l1 l2 :
+  all_chars is_space lead1 = true -> all_chars is_space lead2 = true -> Forall laid l1 -> Forall laid l2 ->
+  map fst l1 = map fst l2 -> lex (lead1 ++ layout l1) = lex (lead2 ++ layout l2).
+Proof.
+  intros H1 H2 F1 F2 E. rewrite (lex_layout lead1 l1 H1 F1), (lex_layout lead2 l2 H2 F2).
+  rewrite <- !(map_map fst tok_of), E. reflexivity.
+Qed.
+
+Lemma render_layout l : render l = layout (map (fun t => (t, " ")) l).
+Proof. induction l as [|t l IH]; cbn [render layout map]; [reflexivity|]. rewrite IH. reflexivity. Qed.
 
 Theorem lex_render l : Forall (fun t => good t = true) l -> lex (render l) = Some (map tok_of l).
-Proof. intros H. unfold lex. apply lex_fuel_render; [exact H|apply length_render]. Qed.
+Proof.
+  intros H. rewrite render_layout. change (layout (map (fun t => (t, " ")) l)) with ("" ++ layout (map (fun t => (t, " ")) l)).
+  rewrite lex_layout; [rewrite map_map; reflexivity|reflexivity|].
+  apply Forall_map. eapply Forall_impl; [|exact H]. intros t Ht. split; [exact Ht|]. split; [discriminate|reflexivity].
+Qed.
 
 (* characters -> tokens -> expression inverts printing and rendering: whatever source spelling l of the printed
    tokens of a writable expression is rendered, the text is read back as that expression *)
@@ -479,3 +543,12 @@ Example rendered_example :
   /\ render_expr e = Some (render l)
   /\ render_expr (ENum (1 # 3) false) = None.
 Proof. vm_compute. repeat split; reflexivity. Qed.
+
+(* layout: a right-hand side continued over lines, with tabs and a carriage return *)
+Example layout_example :
+  let nl := String (ascii_of_nat 10) EmptyString in
+  let tab := String (ascii_of_nat 9) EmptyString in
+  let cr := String (ascii_of_nat 13) EmptyString in
+  lex (tab ++ "(a" ++ nl ++ "   +" ++ tab ++ "b" ++ cr ++ nl ++ ")*2") = lex "( a + b ) * 2".
+Proof. vm_compute. reflexivity. Qed.
+
